@@ -68,8 +68,9 @@ fn when_then_regex() -> &'static Pattern {
 }
 
 fn salience_regex() -> &'static Pattern {
-    SALIENCE_REGEX
-        .get_or_init(|| Pattern::new(r"salience\s+(\d+)").expect("Invalid salience regex pattern"))
+    SALIENCE_REGEX.get_or_init(|| {
+        Pattern::new(r"salience\s+(-?\d+)").expect("Invalid salience regex pattern")
+    })
 }
 
 fn test_condition_regex() -> &'static Pattern {
@@ -612,7 +613,19 @@ impl GRLParser {
 
     /// Extract salience value from attributes section
     fn extract_salience(&self, attributes_section: &str) -> Result<i32> {
-        if let Some(captures) = salience_regex().captures(attributes_section) {
+        // Attribute values are quoted strings and may contain the word "salience":
+        // blank them out before looking for the attribute itself
+        let mut unquoted = String::with_capacity(attributes_section.len());
+        let mut in_quotes = false;
+        for ch in attributes_section.chars() {
+            if ch == '"' {
+                in_quotes = !in_quotes;
+                unquoted.push(ch);
+            } else if !in_quotes {
+                unquoted.push(ch);
+            }
+        }
+        if let Some(captures) = salience_regex().captures(&unquoted) {
             if let Some(salience_match) = captures.get(1) {
                 return salience_match
                     .parse::<i32>()
